@@ -1,0 +1,49 @@
+package rueidis
+
+// Event kinds of the verification trace hooks (see zz_verif_lts_on.go / zz_verif_lts_off.go).
+// The hook calls are no-ops unless the package is built with the tag `verif`.
+const (
+	// pool.go
+	evAcqEnter    = 1  // a = tid, b = 1 when the context can be cancelled (under the pool mutex)
+	evAcqArm      = 2  // a = tid: cancellation goroutine started (under the mutex)
+	evAcqPark     = 3  // a = tid, b = size: wait condition true, about to cond.Wait (under the mutex)
+	evAcqWake     = 4  // a = tid, b = size: cond.Wait returned (under the mutex)
+	evAcqCtxDead  = 5  // a = tid, b = size: dead pipe handed out for a done context (under the mutex)
+	evAcqDown     = 6  // a = tid, b = size: shared dead wire handed out after Close (under the mutex)
+	evAcqMake     = 7  // a = tid, b = size after the increment (under the mutex)
+	evMakeOk      = 8  // a = tid, b = wire id: new wire handed out (no mutex)
+	evMakeBad     = 9  // a = tid, b = wire id: new wire could not stop its timer, size decremented (under the mutex)
+	evPopBad      = 10 // a = tid, b = wire id: idle wire dropped (under the mutex)
+	evPopOk       = 11 // a = tid, b = wire id: idle wire handed out (under the mutex)
+	evPoolState   = 12 // a = size, b = len(list) at the end of a critical section
+	evStoreIdle   = 13 // a = wire id, b = timerOn (under the mutex)
+	evStoreDrop   = 14 // a = wire id (under the mutex)
+	evSigPre      = 15 // before cond.Signal (no mutex)
+	evCloseCS     = 16 // a = size, b = len(list) (under the mutex)
+	evIdleCleanup = 17 // a = size, b = len(list) after the clean-up (under the mutex)
+	evCtxBcast    = 18 // a = tid: the cancellation goroutine broadcasts
+	evAcqReturn   = 19 // a = tid: Acquire returned and its deferred cancel has run (no mutex)
+	evMakeDone    = 20 // yield point after make returned (no event)
+	evStoreSkip   = 21 // a = wire id: Store of a wire that never took a slot (no mutex)
+	// ring.go
+	evPutTicket   = 30 // a = cmd id, b = slot (no lock: recorded after the atomic add)
+	evPutPark     = 31 // a = cmd id, b = slot (under the slot lock)
+	evPutFill     = 32 // a = cmd id, b = slept (under the slot lock)
+	evPutBcastPre = 33 // a = slot (no lock)
+	evWNext       = 34 // a = slot, b = 1 when a command was taken (under the slot lock)
+	evWPark       = 35 // a = slot (under the slot lock)
+	evWWake       = 36 // a = slot (under the slot lock)
+	evWTake       = 37 // a = slot (under the slot lock)
+	evRNext       = 38 // a = slot, b = 1 when a result channel was taken (slot lock taken and kept)
+	evRUnlock     = 39 // a = slot (still under the slot lock)
+	evRSigPre     = 40 // a = slot (no lock)
+	// flowbuffer.go
+	evFTake  = 50 // a = cmd id, b = channel id: token received from f (recorded after the receive)
+	evFPutW  = 51 // a = cmd id, b = channel id: sent to w (atomic with the send)
+	evFWTake = 52 // a = channel id, b = 1 for WaitForWrite: received from w (after the receive)
+	evFPutR  = 53 // a = channel id: sent to r (atomic with the send)
+	evFWNone = 54 // NextWriteCmd found w empty
+	evFRTake = 55 // a = channel id: received from r (after the receive)
+	evFRNone = 56 // NextResultCh found r empty
+	evFPutF  = 57 // a = channel id: token sent back to f (atomic with the send)
+)
